@@ -55,6 +55,14 @@ def denotesB (text : List Char) (v : PyVal) : Bool := parseVal text == some v
 theorem denotesB_iff (text : List Char) (v : PyVal) : denotesB text v = true ↔ Denotes text v := by
   simp [denotesB, Denotes]
 
+/-- the text is a literal that `Script.__init__` (`util.to_tuple`) reads as the sequence `xs` -/
+def DenotesSeq (text : List Char) (xs : List (List Char)) : Prop := (parseVal text).map toTuple = some xs
+
+def denotesSeqB (text : List Char) (xs : List (List Char)) : Bool := (parseVal text).map toTuple == some xs
+
+theorem denotesSeqB_iff (text : List Char) (xs : List (List Char)) : denotesSeqB text xs = true ↔ DenotesSeq text xs := by
+  simp [denotesSeqB, DenotesSeq]
+
 /-- the revision a file with these four assignments loads as (`Script.__init__`) -/
 structure FileVals where
   revision : PyVal
@@ -66,6 +74,6 @@ structure FileVals where
 /-- what the template is given for a requested revision -/
 def templateVals (id : List Char) (down deps labels : List (List Char)) : FileVals :=
   { revision := .str id, downRevision := asScalar down, branchLabels := labelsVal labels,
-    dependsOn := asScalar deps }
+    dependsOn := asScalarList deps }
 
 end Spec.Gen
